@@ -33,7 +33,7 @@ type Case struct {
 	Files     map[string]string `json:"files"` // path relative to the root -> text
 	Entry     string            `json:"entry"`
 	NonStrict bool              `json:"non_strict,omitempty"`
-	Src       string            `json:"src"`            // generator class
+	Src       string            `json:"src"`             // generator class
 	Shape     string            `json:"shape,omitempty"` // cycle / dangling kind
 }
 
@@ -384,9 +384,72 @@ func structural(t *rapid.T) Case {
 	var sb strings.Builder
 	c := Case{Entry: "main.thrift", Files: map[string]string{}, Src: "structural"}
 	name := func(prefix string, i int) string { return fmt.Sprintf("%s%d", prefix, i%n) }
-	kind := rapid.SampledFrom([]string{"typedef-cycle", "const-cycle", "const-struct-default-cycle", "struct-default-self", "struct-default-chain", "service-cycle", "include-loop", "self-include", "dangling-type", "dangling-const", "dangling-service", "typedef-through-container-cycle", "required-struct-cycle", "union-self", "exception-throws-cycle", "const-enum-ref-missing", "deep-typedef-chain", "const-of-recursive-struct"}).Draw(t, "kind")
+	kind := rapid.SampledFrom([]string{"typedef-lasso", "self-default-literal", "docstring-shapes", "typedef-cycle", "const-cycle", "const-struct-default-cycle", "struct-default-self", "struct-default-chain", "service-cycle", "include-loop", "self-include", "dangling-type", "dangling-const", "dangling-service", "typedef-through-container-cycle", "required-struct-cycle", "union-self", "exception-throws-cycle", "const-enum-ref-missing", "deep-typedef-chain", "const-of-recursive-struct"}).Draw(t, "kind")
 	c.Shape = fmt.Sprintf("%s-%d", kind, n)
 	switch kind {
+	case "typedef-lasso":
+		// a tail of typedefs leading into a cycle (rho shape), and values typed through the tail
+		tail := rapid.IntRange(1, 3).Draw(t, "tail")
+		for i := 0; i < n; i++ {
+			fmt.Fprintf(&sb, "typedef %s %s\n", name("C", i+1), name("C", i))
+		}
+		prev := "C0"
+		for i := 0; i < tail; i++ {
+			fmt.Fprintf(&sb, "typedef %s Tail%d\n", prev, i)
+			prev = fmt.Sprintf("Tail%d", i)
+		}
+		switch rapid.IntRange(0, 3).Draw(t, "lasso_use") {
+		case 0:
+			fmt.Fprintf(&sb, "const %s x = 1\n", prev)
+		case 1:
+			fmt.Fprintf(&sb, "struct U { 1: optional %s f = 1 }\n", prev)
+		case 2:
+			fmt.Fprintf(&sb, "struct U { 1: optional list<%s> f = [1, 2] }\nconst map<string, %s> m = {\"a\": 1}\n", prev, prev)
+		default:
+			fmt.Fprintf(&sb, "service Sv { %s get(1: %s a) }\n", prev, prev)
+		}
+		c.Shape = fmt.Sprintf("%s-%d+%d", kind, n, tail)
+	case "self-default-literal":
+		// defaults that are random literals of the struct's own type: some give the
+		// recursive field explicitly, some omit it (so that its default is filled in)
+		var lit func(depth int) string
+		lit = func(depth int) string {
+			if depth <= 0 || rapid.IntRange(0, 2).Draw(t, "lit_leaf") == 0 {
+				return "{}"
+			}
+			var parts []string
+			if rapid.Bool().Draw(t, "lit_a") {
+				var items []string
+				for i, k := 0, rapid.IntRange(0, 2).Draw(t, "lit_n"); i < k; i++ {
+					items = append(items, lit(depth-1))
+				}
+				parts = append(parts, "\"a\": ["+strings.Join(items, ", ")+"]")
+			}
+			if rapid.Bool().Draw(t, "lit_m") {
+				parts = append(parts, "\"m\": {\"k\": "+lit(depth-1)+"}")
+			}
+			if rapid.Bool().Draw(t, "lit_s") {
+				parts = append(parts, "\"s\": "+lit(depth-1))
+			}
+			if rapid.Bool().Draw(t, "lit_v") {
+				parts = append(parts, "\"v\": 7")
+			}
+			return "{" + strings.Join(parts, ", ") + "}"
+		}
+		var items []string
+		for i, k := 0, rapid.IntRange(1, 3).Draw(t, "top_n"); i < k; i++ {
+			items = append(items, lit(3))
+		}
+		fmt.Fprintf(&sb, "struct S {\n  1: optional list<S> a = [%s]\n  2: optional map<string, S> m\n  3: optional S s\n  4: optional i32 v = 3\n}\n", strings.Join(items, ", "))
+		if rapid.Bool().Draw(t, "also_const") {
+			fmt.Fprintf(&sb, "const S K = %s\n", lit(3))
+		}
+	case "docstring-shapes":
+		docs := []string{"/** */", "/**\n */", "/**\n *\n */", "/***/", "/** x\n * y */", "/**\n\n*/", "/** *//** */", "/**\n * a\n *\n */", "/**\t*/", "/**\n*\n*/", "/**\n  \n */"}
+		for i := 0; i < n+1; i++ {
+			fmt.Fprintf(&sb, "%s\nstruct D%d {\n  %s\n  1: optional i32 f%d\n}\n", rapid.SampledFrom(docs).Draw(t, "doc"), i, rapid.SampledFrom(docs).Draw(t, "fdoc"), i)
+		}
+		fmt.Fprintf(&sb, "%s\nenum E {\n  %s\n  A,\n}\n%s\nservice Sv {\n  %s\n  void f()\n}\n", rapid.SampledFrom(docs).Draw(t, "edoc"), rapid.SampledFrom(docs).Draw(t, "idoc"), rapid.SampledFrom(docs).Draw(t, "sdoc"), rapid.SampledFrom(docs).Draw(t, "fndoc"))
 	case "typedef-cycle":
 		for i := 0; i < n; i++ {
 			fmt.Fprintf(&sb, "typedef %s %s\n", name("T", i+1), name("T", i))
@@ -517,16 +580,22 @@ func TestInputs(t *testing.T) {
 func TestStructuralGrid(t *testing.T) {
 	var batch []Case
 	seen := map[string]bool{}
+	variants := map[string]int{}
 	// enumerate by re-using the rapid generator over a fixed set of seeds until every shape has been produced
-	for seed := 0; seed < 4000 && len(seen) < 18*4; seed++ {
+	for seed := 0; seed < 6000; seed++ {
 		c := rapid.Custom(func(t *rapid.T) Case { return structural(t) }).Example(seed)
-		key := c.Shape + fmt.Sprint(len(c.Files[c.Entry]) > 0)
 		if strings.HasSuffix(c.Shape, "+embedded") || seen[c.Shape] {
 			continue
 		}
-		_ = key
 		seen[c.Shape] = true
 		batch = append(batch, c)
+		if strings.HasPrefix(c.Shape, "self-default-literal") || strings.HasPrefix(c.Shape, "docstring-shapes") || strings.HasPrefix(c.Shape, "typedef-lasso") {
+			// these shapes have random content: keep up to 40 variants of each
+			variants[c.Shape]++
+			if variants[c.Shape] < 40 {
+				delete(seen, c.Shape)
+			}
+		}
 	}
 	sort.Slice(batch, func(i, j int) bool { return batch[i].Shape < batch[j].Shape })
 	evaluate(t, "structural-grid", batch)
